@@ -258,6 +258,37 @@ print(hashlib.sha256("\n".join(out).encode()).hexdigest())
 '''
 
 
+import itertools as _it
+
+FIRST_NAMES = ["self", "cls", "selfcls", "Self", "cls_", "_self", "this", "klass"] + [
+    "".join(t) for n in (1, 2, 3) for t in _it.product("selfcx", repeat=n)]
+
+
+FIRST_CELLS = [(i, nd) for i in range(len(FIRST_NAMES)) for nd in range(4)]
+
+
+def first_name_cell(c, active):
+    c = realize(c)
+    i, nd = FIRST_CELLS[c]
+    return first_name_idx(i, nd, active)
+
+
+def first_name_idx(c, nd, active):
+    """the name of the FIRST positional parameter is a table entry (every string of <= 3 characters over 'selfcx', and the look-alikes
+    of self / cls): only exactly `self` / `cls` is dropped; any other name is an ordinary parameter"""
+    c, nd = realize((c, nd))
+    with untraced():
+        name = FIRST_NAMES[c]
+        fd = mk_fn(2, min(nd, 2), 1, 1, 0, 0, 0, (), (11, 12, 13, 21, 22))
+        fd.args.args = [ast.arg(arg=name, annotation=None)] + fd.args.args
+        if nd == 3:
+            if name in ("self", "cls"):
+                return True  # a defaulted self / cls is not a definition anyone writes: outside the claim
+            fd.args.defaults = [ast.Constant(value=10, kind=None)] + fd.args.defaults
+        ir = parse.function(fd)
+        return judge(ir, fd, [], 0, active) == ""
+
+
 def seed_sweep(n):
     """process-level confirmation used on replay (and once per run as a cheap cross-check): identical digest under n hash seeds"""
     digs = set()
@@ -307,6 +338,13 @@ def obligations(tier, seed):
                 bounds="def f(a: int, b: str, c, *, k: float, m) with %d positional defaults, keyword-only default mask %d, documented %r; "
                 "the default values are unbounded symbolic ints" % (nd, kwmask, documented),
                 timeout=150 if tier == "quick" else 600, path_timeout=100, funcs=FUNCS))
+    for lo in range(0, len(FIRST_CELLS), 300):
+        hi = min(lo + 300, len(FIRST_CELLS))
+        obs.append(Ob(name="first_parameter_name_%d" % (lo // 300), params=[("c", "int")], pre=["%d <= c < %d" % (lo, hi)],
+                      body="H.first_name_cell(c, {ACTIVE})", witness=(lo,), kind="F",
+                      bounds="cells %d..%d of %d: first positional parameter named by each of %d strings (all of length <= 3 over 'selfcx' + "
+                      "look-alikes of self/cls), followed by a, b and a keyword-only parameter; x 0..3 trailing defaults (3 = every positional has one)"
+                      % (lo, hi - 1, len(FIRST_CELLS), len(FIRST_NAMES)), timeout=280, path_timeout=100, funcs=FUNCS))
     obs.append(ZOb(name="hashseed_sweep", run=lambda: seed_sweep(8 if tier == "quick" else 32),
                    replay=lambda cex: (seed_sweep(12)["status"] == "violated", "re-ran the sweep"),
                    bounds="'independent of any run-to-run variation': the whole quick configuration table x 3 styles converted in sub-processes "
